@@ -114,6 +114,14 @@ func c25Tail(s string, n int) string {
 	return strings.Join(l, "\n")
 }
 
+func c25Head(s string, n int) string {
+	l := strings.Split(strings.TrimSpace(s), "\n")
+	if len(l) > n {
+		l = l[:n]
+	}
+	return strings.Join(l, " | ")
+}
+
 func c25HarnessError(format string, a ...interface{}) {
 	fmt.Printf("harness error: "+format+"\n", a...)
 	os.Exit(2)
@@ -161,7 +169,7 @@ func init() {
 			text := ""
 			for attempt := 0; attempt < 3; attempt++ {
 				pr := c25Spawn(".race", dir, attempt, scen.Job{Role: "race", Tier: tier, NShards: 1, Only: []string{p.Scenario}, Reps: 300, RaceLog: logPrefix,
-					Deadline: time.Now().Add(5 * time.Minute).Unix()}, "GORACE=log_path="+logPrefix+" halt_on_error=0 history_size=3")
+					Deadline: time.Now().Add(5 * time.Minute).Unix()}, "GORACE=log_path="+logPrefix+" halt_on_error=0 exitcode=0 history_size=3")
 				if pr.err != nil {
 					if strings.Contains(pr.stderr, "fatal error: concurrent map") {
 						return true, "the free-running binary died:\n" + c25Tail(pr.stderr, 60)
@@ -208,7 +216,7 @@ func init() {
 		}
 		dir := c25Scratch()
 		defer os.RemoveAll(dir)
-		nSched, nRace, reps := 11, 4, 200
+		nSched, nRace, reps := 10, 6, 150
 		budget := 80 * time.Second
 		if !c.Quick() {
 			nSched, nRace, reps = 12, 4, 400
@@ -241,7 +249,7 @@ func init() {
 			go func(i int) {
 				defer wg.Done()
 				raceP[i] = c25Spawn(".race", dir, i, scen.Job{Role: "race", Tier: c.Tier, Shard: i, NShards: nRace, Deadline: deadline.Unix(), Only: only, Reps: reps, RaceLog: logPrefix},
-					"GORACE=log_path="+logPrefix+" halt_on_error=0 history_size=3")
+					"GORACE=log_path="+logPrefix+" halt_on_error=0 exitcode=0 history_size=3")
 			}(i)
 		}
 		wg.Wait()
@@ -253,6 +261,7 @@ func init() {
 			shards   int
 		}
 		stats := map[string]*agg{}
+		handlerPanics := map[string]map[string]interface{}{}
 		var order []string
 		var samples []interface{}
 		for i, p := range schedP {
@@ -290,7 +299,7 @@ func init() {
 					a.WallMS = st.WallMS
 				}
 				if st.BasePoints > 0 {
-					a.BasePoints, a.Objects, a.SharedSites = st.BasePoints, st.Objects, st.SharedSites
+					a.BasePoints, a.Objects, a.SharedSites, a.SharedLabels = st.BasePoints, st.Objects, st.SharedSites, st.SharedLabels
 				}
 				if st.Eligible > 0 {
 					a.Eligible, a.SharedObjs = st.Eligible, st.SharedObjs
@@ -303,6 +312,13 @@ func init() {
 				c.Rep.Add(report.Item{Property: "C25", Signature: f.Signature, Engine: "sched",
 					Detail: fmt.Sprintf("scenario %s, schedule with %d preemption(s), %d deviation(s); %d execution(s) of this shard show it\n%s", f.Scenario, f.Cost, len(f.Devs), f.Count, f.Detail),
 					Replay: c25Replay{Kind: "sched", Scenario: f.Scenario, Devs: f.Devs}})
+			}
+			for _, f := range p.out.Warned {
+				k := f.Signature
+				if handlerPanics[k] == nil {
+					handlerPanics[k] = map[string]interface{}{"signature": k, "scenario": f.Scenario, "executions": 0, "schedule": f.Devs, "first_lines": c25Head(f.Detail, 2)}
+				}
+				handlerPanics[k]["executions"] = handlerPanics[k]["executions"].(int) + f.Count
 			}
 			for _, s := range p.out.Samples {
 				if len(samples) < 3 && (len(samples) == 0 || len(s.Devs) > 0) {
@@ -343,7 +359,7 @@ func init() {
 			}
 			perScen = append(perScen, map[string]interface{}{"scenario": n, "preemption_bound": a.Bound, "bound_completed": a.Complete, "executions": a.Executions,
 				"executions_by_preemptions": a.ByCost, "scheduling_points": a.Transitions, "nontrivial_executions": a.Nontrivial, "distinct_outcomes": len(a.outcomes),
-				"points_in_default_schedule": a.BasePoints, "lock_objects": a.Objects, "lock_objects_shared": a.SharedObjs, "shared_operation_sites": a.SharedSites,
+				"points_in_default_schedule": a.BasePoints, "lock_objects": a.Objects, "lock_objects_shared": a.SharedObjs, "shared_operation_sites": a.SharedSites, "shared_object_labels": a.SharedLabels,
 				"preemption_points_in_default_schedule": a.Eligible, "violating_executions": a.Violating, "slowest_shard_wall_s": float64(a.WallMS) / 1000})
 			fmt.Printf("  %-78s bound=%d complete=%v executions=%d %v nontrivial=%d outcomes=%d points=%d\n", n, a.Bound, a.Complete, a.Executions, a.ByCost, a.Nontrivial, len(a.outcomes), a.Transitions)
 		}
@@ -390,6 +406,13 @@ func init() {
 			})
 			for _, rs := range ro.Scenarios {
 				raceScen = append(raceScen, map[string]interface{}{"scenario": rs.Name, "repetitions": rs.Reps, "distinct_outcomes": rs.Outcomes, "skipped": rs.Skip, "wall_s": float64(rs.WallMS) / 1000})
+				for _, f := range rs.Warned {
+					k := f.Signature
+					if handlerPanics[k] == nil {
+						handlerPanics[k] = map[string]interface{}{"signature": k, "scenario": f.Scenario, "executions": 0, "first_lines": c25Head(f.Detail, 3), "seen_in": "race pass"}
+					}
+					handlerPanics[k]["executions"] = handlerPanics[k]["executions"].(int) + f.Count
+				}
 				for _, f := range rs.Found {
 					c.Rep.Add(report.Item{Property: "C25", Signature: f.Signature, Engine: "sched", Detail: fmt.Sprintf("scenario %s\n%s", f.Scenario, f.Detail),
 						Replay: c25Replay{Kind: "race", Scenario: f.Scenario, Signature: f.Signature, Tier: c.Tier}})
@@ -417,16 +440,33 @@ func init() {
 		cv["tier_a"] = tierA
 		cv["scenarios_skipped"] = skipped
 		cv["race_pass"] = raceSummary
+		var hp []interface{}
+		var hpKeys []string
+		for k := range handlerPanics {
+			hpKeys = append(hpKeys, k)
+		}
+		sort.Strings(hpKeys)
+		for _, k := range hpKeys {
+			hp = append(hp, handlerPanics[k])
+		}
+		cv["handler_panics_recovered_by_grpc_middleware"] = hp
+		if len(hp) > 0 {
+			fmt.Printf("  handler panics (recovered by grpc_recovery in the real server; warnings, VERIF_C25_STRICT=1 makes them violations): %d signatures\n", len(hp))
+			for _, k := range hpKeys {
+				fmt.Printf("    %s (%v executions)\n", k, handlerPanics[k]["executions"])
+			}
+		}
 		cv["workers"] = map[string]int{"scheduler": nSched, "race": nRace}
 		cv["rule"] = "states = distinct schedules (hand-over sequences) executed, each on a fresh node; transitions = scheduling points (lock / waitgroup operations and ABCI-call boundaries) executed; " +
 			"an execution is non-trivial when at least one thread was suspended unfinished while another ran; schedules are enumerated depth-first as deviations from 'keep running the current thread', " +
 			"cost = preemptions (switching away from a thread that could continue, other than at an ABCI-call / handler-call boundary), bound per scenario; " +
-			"preemptions are tried only before operations at sites that touch a lock object used by two threads in the zero-preemption executions of the scenario, or on an object another thread already touched in this execution"
+			"preemptions are tried only before operations on lock objects that another thread also touches: either in one of the zero-preemption executions of the scenario (objects are matched across executions by a per-thread label: the thread, the code site of its first operation on the object, and the sequence number among the objects it first used there) or already in the execution being extended"
 		c.Ev.Assumptions = append(c.Ev.Assumptions,
 			"IAVL, tm-db, the harness DB and everything else that does not import the rewritten sync package run atomically between two scheduling points (their own thread-safety is trusted)",
 			"channels / select / atomics in the explored code are not scheduling points (the explored paths use ctx.Done() polls and atomic.Value only)",
 			"the cooperative scheduler's hand-overs are happens-before edges: unsynchronised accesses are only visible to the free-running -race pass, which samples timings (race_pass.mode)",
 			"the reduction profile comes from the zero-preemption executions: a lock object that two threads share only in states unreachable without preemption is missed",
+			"a panic inside a handler is recovered by grpc_recovery.UnaryServerInterceptor in the real server (api/v2/v2.go) and answered with codes.Internal: it is listed under handler_panics_recovered_by_grpc_middleware and is not a violation (set VERIF_C25_STRICT=1 to make it one); what it leaves behind is judged by the rest of the execution",
 			"tier A uses one-transaction blocks (every menu item of the worlds) with CheckTx before DeliverTx; queries run with height 0 (live state)")
 	}})
 }
